@@ -217,11 +217,25 @@ CheckStats(e) ==
       Ms == [k \in 1..n |-> Run(e.cfg, e.reads[k].table, e.reads[k].in1, e.reads[k].in2)]
   IN CheckStatsSide(e, 1, e.stats1, Ms) /\ (e.cfg.paired => CheckStatsSide(e, 2, e.stats2, Ms))
 
+\* ---- demultiplexing at the level of the run (C15): a file for every adapter name (name combination) even if
+\* it stays empty; the records over all demultiplexed files are those of the same command without demultiplexing
+CheckDemux(e) ==
+  LET cfg == e.cfg
+      dm == e.dmx
+      names1 == {cfg.ads1[i].name : i \in 1..Len(cfg.ads1)}
+      names2 == {cfg.ads2[i].name : i \in 1..Len(cfg.ads2)}
+      expected == IF cfg.demux = "combi" THEN {<<a, b>> : a \in names1, b \in names2} ELSE {<<a, <<>>>> : a \in names1}
+      created(fs) == {<<fs[i][1], fs[i][2]>> : i \in 1..Len(fs)}
+  IN /\ Rep(e.id, "Demux.FileForEveryName",
+             expected \subseteq created(dm.files1) /\ (cfg.paired => expected \subseteq created(dm.files2)))
+     /\ dm.twin => Rep(e.id, "Demux.MultisetEqualsPlainRun", dm.demux1 = dm.main1 /\ (cfg.paired => dm.demux2 = dm.main2))
+
 Check(e) ==
   LET miss == \E k \in 1..Len(e.reads) : Needs(e.cfg, e.reads[k].table, e.reads[k].in1, e.reads[k].in2) # {}
   IN /\ \A k \in 1..Len(e.reads) : CheckRead(e, k)
      /\ (Has(e, "report") /\ ~miss) => CheckReport(e)
      /\ (Has(e, "stats") /\ ~miss) => CheckStats(e)
+     /\ (Has(e, "demux") /\ e.cfg.demux # "none") => CheckDemux(e)
 
 Init == l = 1
 \* (Check is compared with TRUE so that TLC evaluates it as one expression with short-circuit
